@@ -120,6 +120,10 @@ def strategy(tier):
         gen.cases(games=('FO8', 'F7S8', 'NR', 'NS', 'PO', 'NT'),
                   profiles=(5, 2), min_players=3, **common),
         gen.cases(**common),
+        # some stacks "not mentioned" (math.inf): the chips in the pots are
+        # the same chips, divided the same way
+        gen.cases(profiles=(5, 2, 1), min_players=3, inf_stacks=True,
+                  chips=('int',), **common),
     )
 
 
@@ -216,7 +220,8 @@ def check(case, stats):
         stats.count('no_live_player_no_pot')
         return []
     # (1) pots from the log
-    zero = 0 * s.starting_stacks[0]
+    from ..engine import chip as _chip
+    zero = _chip(cfg, 0)        # (0 * inf is nan: a stack may be unknown)
     collected = [zero] * n
     ante_part = [zero] * n
     seen_deal = False
